@@ -76,9 +76,15 @@ type Reader struct {
 func (rd *Reader) drawErrFlavour() {
 	t := rd.run.T
 	rd.errv = ErrIO
-	if t.Bool(1, 4, "rd.errflavour") {
+	switch t.Weighted([]int{4, 1, 1}, "rd.errflavour") {
+	case 1:
 		rd.errv = ErrTemporary
 		rd.run.Stats["rd.err.temporary"]++
+	case 2:
+		// what a decompressor or io.ReadFull reports for a stream cut short: a
+		// failure, not an end
+		rd.errv = io.ErrUnexpectedEOF
+		rd.run.Stats["rd.err.unexpected-eof"]++
 	}
 	rd.withData = t.Bool(1, 4, "rd.errwithdata")
 }
